@@ -46,6 +46,8 @@ class SeqWorld(World):
                 return not any(n.get("k") == "throw" for n in walk(s.get("then")))
             if s.get("k") == "expr" and "make_shared" in pp(s["e"]) and "m_impl_ptr" in pp(s["e"]):
                 return False
+            if any(n.get("k") == "new" for n in walk(s)):
+                return False        # allocation of the snapshot graphs (their single-column argument)
             if s.get("k") == "expr":
                 # a helper of the class that carries the sanity checks (it can throw) or creates the
                 # implementation is interpreted like the statements it was split from
@@ -58,7 +60,7 @@ class SeqWorld(World):
                         if g is None or g.key in seen_k or g.body is None:
                             continue
                         seen_k.add(g.key)
-                        if any(n.get("k") == "throw" for n in walk(g.body)) or \
+                        if any(n.get("k") in ("throw", "new") for n in walk(g.body)) or \
                                 any("make_shared" in pp(n) and "m_impl_ptr" in pp(n) for n in walk(g.body)
                                     if n.get("k") == "expr"):
                             return False
@@ -71,6 +73,12 @@ class SeqWorld(World):
         if call.get("k") == "construct":
             if call.get("cls") == "fastscapelib::thread_pool":
                 return Sym("thread_pool", "pool")
+            if call.get("cls") == model.FLOW_GRAPH and len(call.get("a", [])) == 2 and \
+                    "bool" == fn.type(call["a"][1].get("t")).replace("const ", "").strip():
+                # a snapshot graph: reduced to the single-column argument it is allocated with
+                sf = it.rv(it.eval(call["a"][1], frame))
+                return Obj(model.FLOW_GRAPH, {"m_writeable": False,
+                                              "m_impl_ptr": Obj(model.GRAPH_IMPL, {"m_single_flow": sf})})
             return NOT_HANDLED
         if bn == "std::make_shared":
             args = call.get("a", [])
@@ -135,7 +143,7 @@ def spec(ops, seq):
         return {"accept": False, "why": "no operator updates the graph / defines a direction"}
     return {"accept": True, "single_flow": direction == "single", "single_column": all_single,
             "graph_keys": gkeys, "elevation_keys": ekeys, "snap_single": snap_single,
-            "pass_through": not elevation_updated}
+            "snap_alloc": dict(snap_single), "pass_through": not elevation_updated}
 
 
 def make_snapshot_op(it, unit, name, save_graph, save_elevation):
@@ -180,7 +188,8 @@ def interpret(unit, ops, seq):
                 and len(f.params) == 2 and "flow_operator_sequence" in f.type(f.params[1]["t"])]
         if not ctor:
             raise AnalysisBroken("flow_graph(grid, operators) not instantiated in %s" % unit.name)
-        fg = Obj(model.FLOW_GRAPH, {"m_writeable": True})
+        fg = Obj(model.FLOW_GRAPH, {"m_writeable": True, "m_graph_snapshots": {}, "m_graph_impl_snapshots": {},
+                                    "m_elevation_snapshots": {}, "m_grid": Sym("grid", "g")})
         it.call_fn(ctor[0], fg, [Sym("grid", "g"), so])
         ops_obj = fg.fields.get("m_operators")
         if not isinstance(ops_obj, Obj):
@@ -198,9 +207,22 @@ def interpret(unit, ops, seq):
         out["elevation_keys"] = list(call0(model.FLOW_GRAPH + "::elevation_snapshot_keys", fg))
         out["pass_through"] = not bool(call0(SEQ + "::elevation_updated", ops_obj))
         ssf = [x for x in unit.fns.values() if x.bn == SEQ + "::snapshot_single_flow"]
-        out["snap_single"] = {}
-        for k in out["graph_keys"]:
-            out["snap_single"][k] = bool(it.rv(it.call_fn(ssf[0], ops_obj, [k])))
+        if ssf:
+            out["snap_single"] = {}
+            for k in out["graph_keys"]:
+                out["snap_single"][k] = bool(it.rv(it.call_fn(ssf[0], ops_obj, [k])))
+        else:
+            out["snap_single"] = None       # the query is not instantiated (not used): see snap_alloc
+        # the storage the constructor allocated for each snapshot graph
+        out["snap_alloc"] = {}
+        for mname in ("m_graph_impl_snapshots", "m_graph_snapshots"):
+            m = fg.fields.get(mname)
+            if isinstance(m, dict) and m:
+                for k, g in m.items():
+                    impl = g.fields.get("m_impl_ptr") if isinstance(g, Obj) and g.cls == model.FLOW_GRAPH else g
+                    if isinstance(impl, Obj) and "m_single_flow" in impl.fields:
+                        out["snap_alloc"][k] = bool(impl.fields["m_single_flow"])
+                break
         return out
     except ThrowEx as ex:
         return {"accept": False, "why": ex.text[:80], "where": ex.where}
@@ -260,8 +282,13 @@ def run(db, chk):
                 got = interpret(unit, ops, seq)
                 keys = ["accept"] if not want["accept"] else \
                     ["accept", "single_flow", "single_column", "graph_keys", "elevation_keys",
-                     "snap_single", "pass_through"]
-                diff = [k for k in keys if want.get(k) != got.get(k)]
+                     "snap_single", "snap_alloc", "pass_through"]
+                diff = [k for k in keys if want.get(k) != got.get(k) and not (k == "snap_single" and got.get(k) is None
+                                                                                and "snap_alloc" in got)]
+                if "snap_alloc" in diff and isinstance(got.get("snap_alloc"), dict) and \
+                        set(got["snap_alloc"]) == set(want["snap_alloc"]) and \
+                        not any(got["snap_alloc"][k] and not want["snap_alloc"][k] for k in want["snap_alloc"]):
+                    diff.remove("snap_alloc")       # more columns than the saved state needs: harmless
                 label = " > ".join(s[0] for s in seq)
                 if diff and bad < 25:
                     bad += 1
@@ -277,6 +304,37 @@ def run(db, chk):
                            function=SEQ + "::add_operator", construct="sequence",
                            sample=(n_sc % 97 == 1), extra={"unit": uname})
     chk.count_scenarios(n_sc, True)
+
+    # ---- T5: graphs built without operators (snapshot graphs) ---------------------------------------
+    chk.rule("C20-T5", "a graph built by the private (grid, single_flow) constructor -- the way snapshot graphs are "
+             "built, with an empty operator sequence -- and holding a multiple-direction state does not report "
+             "single_flow() (single-direction-only consumers such as the non-linear stream-power solver would "
+             "accept it)", min_instances=1)
+    for uname in units:
+        unit = db.units[uname]
+        pc = [f for f in unit.fns.values() if f.cls == model.FLOW_GRAPH and f.is_ctor and len(f.params) == 2
+              and f.type(f.params[1]["t"]).replace("const ", "").strip() == "bool"]
+        sf = [x for x in unit.fns.values() if x.bn == model.FLOW_GRAPH + "::single_flow" and not x.params]
+        if not pc or not sf:
+            continue
+        for multi_state in (True,):
+            w = SeqWorld()
+            it = Interp(w)
+            rec = [r for r in unit.records if r["bn"] == SEQ]
+            if not rec:
+                raise AnalysisBroken("flow_operator_sequence not instantiated in %s" % unit.name)
+            # (the operator sequence member is default-constructed: no operator)
+            fg = Obj(model.FLOW_GRAPH, {"m_writeable": False, "m_operators": it.new_obj(pc[0], rec[0])})
+            try:
+                it.call_fn(pc[0], fg, [Sym("grid", "g"), not multi_state])
+                got = bool(it.rv(it.call_fn(sf[0], fg, [])))
+                bad = got
+                detail = "single_flow() answers true for a snapshot graph allocated for a multiple-direction state" if bad else ""
+            except ThrowEx as ex:
+                bad, detail = True, "threw %s" % ex.text[:80]
+            chk.ob("C20-T5", "[%s] flow_graph(grid, single_flow=false).single_flow()" % uname, not bad,
+                   where=sf[0].ploc, function=sf[0].bn, construct="snapshot-graph-direction", detail=detail,
+                   extra={"unit": uname})
 
     # ---- T4: move assignment ---------------------------------------------------------------------
     import copy as _copy
